@@ -28,12 +28,16 @@ shard_i=0; shard_n=1
 if [ -n "${SHARD:-}" ]; then shard_i=${SHARD%/*}; shard_n=${SHARD#*/}; fi
 idx=0
 pick() { idx=$((idx+1)); [ $((idx % shard_n)) -eq $shard_i ]; }
+# optional name filter: ONLY=<extended regex> keeps the cases whose file or directory name matches
+match() { [ -z "${ONLY:-}" ] || echo "$1" | grep -Eq "$ONLY"; }
 for m in mutants/*.diff; do
+  match "$(basename $m)" || continue
   pick || continue
   prop=$(basename "$m" | cut -c1-3 | tr c C)
   run_case "$(basename $m .diff)" "$PWD/$m" "$prop"
 done
 for s in seeded/*/; do
+  match "$(basename $s)" || continue
   pick || continue
   n=$(basename "$s"); prop=$(echo "$n" | cut -c1-3)
   [ -f "$s/PROPERTY" ] && prop=$(cat "$s/PROPERTY") # a change filed under one property but reported by the check of another
